@@ -733,7 +733,21 @@ def _rework(job: typing.Tuple[int, dict, str]) -> dict:
     return r
 
 
+def _tree_fingerprint() -> str:
+    """sizes + mtimes of every source file of the tree under test (to notice a commit landing during the run)"""
+    h = hashlib.sha256()
+    for dirpath, dirnames, filenames in os.walk(REPO / "src" / "nunavut"):
+        dirnames[:] = sorted(d for d in dirnames if d != "__pycache__")
+        for f in sorted(filenames):
+            if f.endswith(".pyc"):
+                continue
+            st = os.stat(os.path.join(dirpath, f))
+            h.update(f"{dirpath}/{f}:{st.st_size}:{st.st_mtime_ns}\n".encode())
+    return h.hexdigest()
+
+
 def run(ctx: Ctx) -> int:
+    fingerprint = _tree_fingerprint()
     space = all_configs()
     core = core_configs()
     core_ids = {cfg_id(c) for c in core}
@@ -743,6 +757,8 @@ def run(ctx: Ctx) -> int:
     chosen.sort(key=lambda c: (-(c["tpl"] != "builtin") - (c["lang"] in ("html", "cpp")), cfg_id(c)))
     jobs = [(i, c, str(ctx.scratch)) for i, c in enumerate(chosen)]
     results = ctx.pool_map(_work, jobs)
+    if _tree_fingerprint() != fingerprint:
+        raise HarnessError(f"the tree under test ({REPO}/src/nunavut) was modified while the check was running; run again")
 
     outcomes, evals, mutant_runs = set(), 0, 0
     status: typing.Dict[str, int] = {}
